@@ -44,7 +44,9 @@ func resultType(c *ssa.CallCommon) types.Type {
 }
 
 func (fr *Frame) callVals(c *ssa.CallCommon, fv *Val, args []*Val, argVals []ssa.Value, pos token.Pos) *Val {
+	snap := fr.snapshotPrivateCells(c)
 	res := fr.callVals1(c, fv, args, argVals, pos)
+	fr.restorePrivateCells(snap)
 	what := callAnchorName(c, fv)
 	if what != "" {
 		bind := map[string]*Val{}
